@@ -93,20 +93,35 @@ Proof. vm_compute. repeat split; reflexivity. Qed.
 From V Require Import C13.Token C13.ParseSpec C01.CommaTrace.
 (* a, (b, c) shaped tree: norm changes the tree, the trace semantics sees
    reads, writes, a short circuit and the final store, identically *)
-Definition ex_comma : expr :=
-  EBin BComma (EBin BAssign (EId [97]) (ENum [53]))
-    (EBin BComma (EBin BAddAssign (EId [98]) (EId [97]))
-       (EBin BLogAnd (EId [98]) (EUn UPostInc (EId [97])))).
-Example ex_comma_norm_differs : norm ex_comma <> ex_comma.
-Proof. vm_compute. discriminate. Qed.
+Definition ex_comma : cexpr :=
+  CBin BComma (CBin BAssign (CId [97]) (CNum [53]))
+    (CBin BComma (CBin BAddAssign (CId [98]) (CId [97]))
+       (CBin BLogAnd (CId [98]) (CUn UPostInc (CId [97])))).
+Example ex_comma_norm_differs : cnorm ex_comma <> ex_comma /\ norm (embed ex_comma) = embed (cnorm ex_comma).
+Proof. split; [vm_compute; discriminate|vm_compute; reflexivity]. Qed.
 Example ex_comma_trace :
   trace_eval ex_comma ([], []) =
   Some (Val 5, ([([97], 6); ([98], 5); ([97], 5)],
                 [Write [97] 5; Read [98] 0; Read [97] 5; Write [98] 5; Read [98] 5; Read [97] 5; Write [97] 6]))
-  /\ trace_eval (norm ex_comma) ([], []) = trace_eval ex_comma ([], []).
+  /\ trace_eval (cnorm ex_comma) ([], []) = trace_eval ex_comma ([], []).
 Proof. vm_compute. split; reflexivity. Qed.
 (* an exception (division by zero) aborts: same on both sides *)
 Example ex_comma_fail :
-  let e := EBin BComma (EId [97]) (EBin BComma (EBin BDiv (ENum [49]) (ENum [48])) (EId [98])) in
-  trace_eval e ([], []) = None /\ trace_eval (norm e) ([], []) = None.
+  let e := CBin BComma (CId [97]) (CBin BComma (CBin BDiv (CNum [49]) (CNum [48])) (CId [98])) in
+  trace_eval e ([], []) = None /\ trace_eval (cnorm e) ([], []) = None.
 Proof. vm_compute. split; reflexivity. Qed.
+
+From V Require Import gen.IdTablesGen C01.Keys C01.KeysProofs.
+(* keys: identifier (raw, or escaped under ASCII), quoted when not an identifier (a non-BMP character
+   is never one for the ES5-and-ESNext test), and when PreferQuotedKey is set; ZWJ continues an identifier *)
+Example key_ex :
+  print_string_key (mkQ false true true 0 false true) false [233; 960] = Some [195; 169; 207; 128]
+  /\ print_string_key (mkQ true true true 0 false true) false [233; 960]
+      = Some [92; 117; 48; 48; 69; 57; 92; 117; 48; 51; 67; 48]
+  /\ print_string_key (mkQ false true true 0 false true) false [55362; 57271]
+      = Some [34; 240; 160; 174; 183; 34]
+  /\ print_string_key (mkQ false true true 0 false true) false [97; 32; 98] = Some [34; 97; 32; 98; 34]
+  /\ print_string_key (mkQ false true true 0 false true) true [97] = Some [34; 97; 34]
+  /\ print_string_key (mkQ false true true 0 false true) false [97; 8205] = Some [97; 226; 128; 141]
+  /\ key_value [92; 117; 48; 48; 69; 57; 92; 117; 48; 51; 67; 48] = Some [233; 960].
+Proof. vm_compute. repeat split; reflexivity. Qed.
